@@ -509,7 +509,9 @@ def run_greenback(ctx):
                 if inside:
                     with warnings.catch_warnings():
                         warnings.simplefilter("ignore")
+                        ctx.in_sut(True)
                         result["st"] = stackscope.extract(result["task"])
+                        ctx.in_sut(False)
                     result["shadow"] = list(shadow) + [sys._getframe(0)][:0]
                     return None
                 return greenback.await_(bottom())
@@ -549,7 +551,9 @@ def run_greenback(ctx):
             if not inside:
                 with warnings.catch_warnings():
                     warnings.simplefilter("ignore")
+                    ctx.in_sut(True)
                     result["st"] = stackscope.extract(result["task"])
+                    ctx.in_sut(False)
                 result["shadow"] = list(shadow)
         finally:
             nursery.cancel_scope.cancel()
